@@ -44,6 +44,7 @@ EUI48, EUI64, L32, L64, NID, HINFO, X25, DHCID, NSAP = 108, 109, 105, 106, 104, 
 NSEC3PARAM, URI, WKS, NAPTR = 51, 256, 11, 35
 KEY, DS, DLV, CDS, ZONEMD, CAA, CSYNC, NSEC3 = 25, 43, 32769, 59, 63, 257, 62, 50
 DNAME, NSEC, NSAP_PTR, BRID, HHIT = 39, 47, 23, 68, 67
+LP, TKEY = 107, 249
 FIELD_TYPES_ANY = {
     SPF: "txt", NINFO: "txt", AVC: "txt", RESINFO: "txt", WALLET: "txt",
     AFSDB: [2, "U"], RT: [2, "U"], RP: ["U", "U"],
@@ -53,6 +54,7 @@ FIELD_TYPES_ANY = {
     KEY: [4, "R"], DS: ["ds"], DLV: ["ds"], CDS: ["cds"], ZONEMD: ["zonemd"], CAA: ["caa"],
     CSYNC: [6, "bitmap"], NSEC3: [4, "C8", "C8", "bitmap"],
     DNAME: ["X"], NSEC: ["X", "bitmap"], BRID: ["R"], HHIT: ["R"],      # "X": uncompressed name, case kept in the digest
+    LP: [2, "X"], TKEY: ["X", 12, "C16", "C16"],
 }
 
 
@@ -220,6 +222,10 @@ def mk_rdata(rdclass, rdtype, rd):
             return cls(rdclass, rdtype, piece_name(rd, 0))
         if rdtype == NSEC:
             return cls(rdclass, rdtype, piece_name(rd, 0), bitmap_windows(pb(1)))
+        if rdtype == LP:
+            return cls(rdclass, rdtype, struct.unpack("!H", pb(0))[0], piece_name(rd, 1))
+        if rdtype == TKEY:
+            return cls(rdclass, rdtype, piece_name(rd, 0), *struct.unpack("!IIHH", pb(1)), pb(2)[2:], pb(3)[2:])
         if rdtype in (OPENPGPKEY, DHCID, NSAP, EUI48, EUI64, BRID, HHIT):
             return cls(rdclass, rdtype, pb(0))
         if rdtype == L32:
@@ -372,6 +378,11 @@ def rdata_pieces(rd):
             return [[2, labels_of(rd.target)]]
         if t == NSEC:
             return [[2, labels_of(rd.next)], bitmap_bytes(rd.windows)]
+        if t == LP:
+            return [struct.pack("!H", rd.preference), [2, labels_of(rd.fqdn)]]
+        if t == TKEY:
+            return [[2, labels_of(rd.algorithm)], struct.pack("!IIHH", rd.inception, rd.expiration, rd.mode, rd.error),
+                    struct.pack("!H", len(rd.key)) + rd.key, struct.pack("!H", len(rd.other)) + rd.other]
         if t == OPENPGPKEY:
             return [bytes(rd.key)]
         if t in (BRID, HHIT):
@@ -579,7 +590,8 @@ def walk_name(wire, off, label_starts):
 NAME_FIELDS = {NS: ["n"], CNAME: ["n"], PTR: ["n"], MX: [2, "n"], SOA: ["n", "n", 20], SRV: [6, "n"],
                RRSIG: [18, "n", None], TSIG: ["n", None],
                AFSDB: [2, "n"], RT: [2, "n"], RP: ["n", "n"], KX: [2, "n"], PX: [2, "n", "n"],
-               NAPTR: [4, "c8", "c8", "c8", "n"], DNAME: ["n"], NSAP_PTR: ["n"], NSEC: ["n", None]}
+               NAPTR: [4, "c8", "c8", "c8", "n"], DNAME: ["n"], NSAP_PTR: ["n"], NSEC: ["n", None],
+               LP: [2, "n"], TKEY: ["n", None]}
 IN_ONLY_NAME_TYPES = (SRV, KX, PX, NAPTR, NSAP_PTR)
 
 
@@ -820,6 +832,9 @@ def gen_rdata(rng, pool, rdclass, rdtype):
                 out.append([0, nm()])
             elif f == "X":
                 out.append([2, nm()])
+            elif f == "C16":
+                n = rng.choice([0, 1, 16, 300])
+                out.append(struct.pack("!H", n) + bytes(rng.randrange(256) for _ in range(n)))
             elif f == "R1":
                 out.append(bytes(rng.randrange(256) for _ in range(rng.choice([1, 2, 20, 70]))))
             elif f in ("ds", "cds"):
